@@ -122,7 +122,9 @@ class DiskIf:
         self.written_peers.append((peer.host, peer.port, peer.direction))
 
     def load_peers(self):
-        return {}
+        # what the start-up path reads as peers.json; `on_load(started)` lets a driver decide what is listed and play what the network
+        # thread does if the list happens to be read after the thread was started
+        return self.on_load() if getattr(self, "on_load", None) else {}
 
     def save_transaction_for_debugging(self, tx):
         self.debug_txs.append(tx)
@@ -131,7 +133,7 @@ class DiskIf:
 class Node:
     """One real LocalPeer wired to fake sockets, a real BlockStore on a scratch file and a virtual clock."""
 
-    def __init__(self, coinstate, genesis, clock=None, real_store=True, port=2412, nonce=None, name="n"):
+    def __init__(self, coinstate, genesis, clock=None, real_store=True, port=2412, nonce=None, name="n", on_load_peers=None):
         sk.setup()
         import skepticoin.networking.remote_peer as rp
         import skepticoin.networking.local_peer as lp
@@ -156,6 +158,9 @@ class Node:
                 bs.genesis_block_data = orig
             bs.DefaultBlockStore.instance = self.store
         self.disk = DiskIf(di.DiskInterface())
+        self.thread_started = False
+        if on_load_peers is not None:
+            self.disk.on_load = lambda: on_load_peers(self)
         # the node comes into being the way every script creates it: NetworkingThread.__init__ (LocalPeer, the chain read from disk handed to
         # the chain manager, the peer list loaded); the thread itself is never started -- the harness plays the event loop
         self.thread = None
@@ -181,6 +186,20 @@ class Node:
         self.peers = {}
         self.escaped = []         # exceptions that escaped the event handler / manager step
         self.name = name
+        # ... followed by thread.start(), with the operating-system thread itself left out (whatever start() does besides is real)
+        if self.thread is not None:
+            import threading as _th
+            orig_start = _th.Thread.start
+
+            def _no_os_thread(t_):
+                self.thread_started = True
+            _th.Thread.start = _no_os_thread
+            try:
+                self.thread.start()
+            except Exception as e:
+                self.escaped.append(("thread.start", repr(e)))
+            finally:
+                _th.Thread.start = orig_start
 
     def use_store(self):
         if self.store is not None:
